@@ -216,13 +216,66 @@ fn one_case(run: &Run, case: u64) {
     }
 }
 
+/// Scale: diff of a version with more than 10 000 index hunks against its own tree and
+/// against the tree after changes on both sides of the index-subdirectory boundary.
+fn many_hunks(run: &Run) {
+    let mut w = crate::history::many_hunks_world("c18big", run.seed);
+    let o = crate::history::MANY_HUNKS_OPTS;
+    run.eval();
+    let replay = json!({"many_hunks": true});
+    if !w.backup(o).backup.unwrap().clean() {
+        run.inconclusive("many-hunks backup not clean");
+        return;
+    }
+    let s0 = w.snap.clone();
+    let d = cs::diff(cs::local(&w.arch), Some(0), &w.src, false, &[]);
+    run.count("diffs_compared", 1);
+    match d.value() {
+        Some(got) if got.is_empty() => {}
+        _ => {
+            run.violation("diff-against-own-source-reports-change", format!("[10 040-file tree, 1 entry per hunk] {}", d.describe().chars().take(300).collect::<String>()), replay);
+            return;
+        }
+    }
+    let mut spec = w.spec.clone();
+    for i in [3u32, 9_999, 10_000, 10_039] {
+        let mut n = Node::file(format!("changed {i}").into_bytes());
+        n.mtime_s = 1_700_000_000 + i as i64;
+        spec.insert(format!("/f{i:05}"), n);
+    }
+    spec.remove("/f00007");
+    spec.remove("/f10001");
+    spec.insert("/zlast".into(), Node::file(b"new".to_vec()));
+    w.set_spec(spec);
+    let want = expected_diff(&s0, &w.snap, false);
+    let d = cs::diff(cs::local(&w.arch), Some(0), &w.src, false, &[]);
+    run.count("diffs_compared", 1);
+    if d.value() != Some(&want) {
+        run.violation(
+            "diff-differs-from-real-differences:many-hunks",
+            format!("[10 040-file tree, 1 entry per hunk] real differences {want:?}, reported {}", d.value().map(|v| format!("{:?}", v.iter().take(12).collect::<Vec<_>>())).unwrap_or_else(|| d.describe())),
+            replay,
+        );
+        return;
+    }
+    run.count("diffs_of_versions_with_more_than_10000_hunks", 2);
+}
+
 pub fn run(tier: Tier, replay: Option<Value>) -> i32 {
-    let run = Run::new("C18", "exploration", tier, replay);
-    run.par_cases(tier.pick(2500, 250000), super::threads(), |c| one_case(&run, c));
+    let run = Run::new("C18", "exploration", tier, replay.clone());
+    if replay.as_ref().and_then(|r| r.get("many_hunks")).is_some() {
+        many_hunks(&run);
+        return run.finish("replay", &[], None, &[]);
+    }
+    if replay.is_none() {
+        super::alongside(&run, "the many-hunks diff", || many_hunks(&run), || run.par_cases(tier.pick(2500, 250000), super::threads(), |c| one_case(&run, c)));
+    } else {
+        run.par_cases(tier.pick(2500, 250000), super::threads(), |c| one_case(&run, c));
+    }
     run.finish(
-        "generated trees S0 backed up with default options; diff(version, S0) must be empty (and all-unchanged with include_unchanged); then 1-6 mutations (content with new mtime or size, mtime only, chmod, chown as root, file<->dir swaps, add/remove/rename of files, dirs and symlinks, retargeted links) give S1 and diff(version, S1) must equal, in apath order and with the right sigil, the classification computed from the two lstat snapshots (added / deleted / changed iff kind, owner, mode, file size or mtime, or link target differ); the next backup's change callback, restricted to files, must name the same added, changed and deleted sets. Non-trivial = >= 2 real differences; distinct by the difference list.",
+        "generated trees S0 backed up with default options; diff(version, S0) must be empty (and all-unchanged with include_unchanged); then 1-6 mutations (content with new mtime or size, mtime only, chmod, chown as root, file<->dir swaps, add/remove/rename of files, dirs and symlinks, retargeted links) give S1 and diff(version, S1) must equal, in apath order and with the right sigil, the classification computed from the two lstat snapshots (added / deleted / changed iff kind, owner, mode, file size or mtime, or link target differ); the next backup's change callback, restricted to files, must name the same added, changed and deleted sets. Also one version of 10 040 files with one entry per hunk, diffed against its own tree and after changes on both sides of the index-subdirectory boundary. Non-trivial = >= 2 real differences; distinct by the difference list.",
         &["directory and symlink mtimes are not significant (as in the statement)"],
         None,
-        &[("diffs_compared", 100), ("real_changes_added", 10), ("real_changes_deleted", 10), ("real_changes_changed", 10), ("callback_sets_compared", 50)],
+        &[("diffs_compared", 100), ("real_changes_added", 10), ("real_changes_deleted", 10), ("real_changes_changed", 10), ("callback_sets_compared", 50), ("diffs_of_versions_with_more_than_10000_hunks", 2)],
     )
 }
